@@ -5,7 +5,7 @@ From IRV Require Import Base.Exn C03.Model.
 Import ListNotations.
 
 Definition tsame (t t' : tensor) : Prop :=
-  t_tok t' = t_tok t /\ t_pay t' = t_pay t /\ t_bad_info t' = t_bad_info t.
+  t_tok t' = t_tok t /\ t_pay t' = t_pay t /\ t_bad_info t' = t_bad_info t /\ t_fill t' = t_fill t.
 (* c is the const_value of an initializer value whose name is nm *)
 Definition init_tensor (h : heap) (c : nat) (nm : option name) : Prop :=
   exists g z k v x, getg h g = Some z /\ In (k, v) (g_inits z) /\ getv h v = Some x /\ v_const x = Some c /\ nm = v_name x.
@@ -26,7 +26,7 @@ Qed.
 Lemma readonly_trans h1 h2 h3 : readonly h1 h2 -> readonly h2 h3 -> readonly h1 h3.
 Proof.
   intros (A1 & A2 & A3 & A4 & A5) (B1 & B2 & B3 & B4 & B5). repeat split; try congruence.
-  intros c t H. destruct (A5 c t H) as (t2 & H2 & (S1 & S2 & S3) & N2). destruct (B5 c t2 H2) as (t3 & H3 & (T1 & T2 & T3) & N3).
+  intros c t H. destruct (A5 c t H) as (t2 & H2 & (S1 & S2 & S3 & S4) & N2). destruct (B5 c t2 H2) as (t3 & H3 & (T1 & T2 & T3 & T4) & N3).
   exists t3. split; auto. split; [repeat split; congruence|].
   destruct N3 as [N3|N3].
   - rewrite N3. auto.
